@@ -1,4 +1,7 @@
 import SynKitProofs.ReactorInvLemmas
+import SynKitProofs.ReactorLink
+import SynKitProofs.SubgraphSearchEquiv
+import SynKitProofs.Props.C06
 /-!
 # C05 — rule application depends on the chemistry only, not on how inputs are written
 
@@ -27,7 +30,9 @@ What is proved here, for all graphs and all injective renumberings:
 * `C05.statement_partial` — `C05.FullStatement X` for every reactor whose stages satisfy the named
   hypotheses.  Missing for the unconditional statement: the instantiation of `X` with the concrete
   glue / pattern-preparation model of C03 and the component-aware search of C06, i.e. proofs of
-  `GlueEquivariant`, `PatternEquivariant`, `SearchEquivariant comp`, `GlueAutInvariant`.
+  `GlueEquivariant`, `PatternEquivariant`, `SearchEquivariant comp`, `GlueAutInvariant`;
+* these are supplied in the last section of this file ("Instantiation with the concrete glue model"):
+  `C05.statement_concrete` is `C05.FullStatement` for the modelled implicit path with no hypothesis.
 
 The pruning as coded before fix 0015 (orbits and anchor of the left-hand pattern alone, ties broken
 by node id) does NOT satisfy `PruneSound`; the implementation-level check `harness/props/c05.py`
@@ -403,5 +408,383 @@ example : C05.FullStatement toyX := by
     exact SetEqMod.refl ⟨fun _ => rfl, fun h => h.symm, fun h1 h2 => h1.trans h2⟩ _
 
 end Examples
+
+/-! ## Instantiation with the concrete glue model of C03 (`SynKitProofs/ReactorLink.lean`)
+
+`ReactorLink.concrete maxGroup comp` is the modelled implicit path of `SynReactor` as an instance
+of the abstract pipeline: pattern = reactant side of the (oriented) template, exhaustive search = the
+proven enumerator on `monoSel`, pruning = the repaired `pruneByAut` over the automorphisms of the
+rule, glue = `Reactor.glue` (rendering nothing outside the property's domain), results compared up
+to `ItsEquiv` (isomorphism of ITS graphs on label pairs and order pairs).  The named hypotheses of
+the abstract development are discharged for it:
+
+* `C05.glue_relabel_concrete` — the glue step commutes with renumbering, as an equality of graphs;
+* `C05.patternEquivariant_concrete`, `C05.glueEquivariant_concrete` — `PatternEquivariant`,
+  `GlueEquivariant` hold of `concrete`;
+* `C05.results_list_invariant_concrete` — exhaustive strategy, no pruning: the list of ITS graphs of
+  the renumbered inputs is the renumbered list (order included);
+* `C05.results_invariant_concrete` — `SetEqMod ItsEquiv` form, any equivariant component search;
+* `C05.glueAutInvariant_concrete` — `GlueAutInvariant` restricted to matches (for an assignment
+  list with a repeated key `get?` and `preimage` read different pairs and the unrestricted statement
+  fails, so `prune_preserves_results` is re-proved in the restricted form
+  `prune_preserves_results_on`);
+* `C05.prune_preserves_results_concrete` — the repaired pruning never changes the set of reactions;
+* `C05.statement_concrete_partial` — `C05.FullStatement (concrete maxGroup comp)` for every
+  component-aware search `comp` that returns exhaustive matches and is equivariant;
+* `compSearch_equivariant`, `C05.statement_concrete` — both hypotheses hold of the C06 model
+  `findComp` (`SubgraphSearchEquiv.lean`), hence the full statement for the concrete reactor with no
+  hypothesis left.
+-/
+section Concrete
+open SynKit.Reactor SynKit.ReactorLink
+
+/-- **C05, glue step (a).** `_glue_graph` commutes with renumbering substrate (`f`) and template (`π`):
+an equality of graphs, no hypothesis beyond injectivity. -/
+theorem C05.glue_relabel_concrete {f π : Nat → Nat} (hf : Function.Injective f) (hπ : Function.Injective π)
+    (dir : Bool) (host T : LGraph) (m : Mapping) :
+    glue (host.relabel f) (orient dir (T.relabel π)) (relabelHost f (relabelPat π m)) =
+      (glue host (orient dir T) m).relabel f :=
+  glue_orient_relabel hf hπ dir host T m
+
+/-- **`PatternEquivariant` holds of the concrete reactor.** -/
+theorem C05.patternEquivariant_concrete (maxGroup : Nat) (comp : LGraph → LGraph → List Mapping) :
+    PatternEquivariant (concrete maxGroup comp) :=
+  fun dir T π _ => concrete_pattern_relabel maxGroup comp dir T π
+
+theorem setEqMod_map_relabel (l : List LGraph) (hl : ∀ r ∈ l, r.WF) (f : Nat → Nat) (hf : Function.Injective f) :
+    SetEqMod ItsEquiv (l.map (·.relabel f)) l := by
+  constructor
+  · intro x hx
+    obtain ⟨r, hr, rfl⟩ := List.mem_map.1 hx
+    exact ⟨r, hr, itsEquiv_relabel r (hl r hr) f hf⟩
+  · intro r hr
+    exact ⟨r.relabel f, List.mem_map.2 ⟨r, hr, rfl⟩, itsEquiv_equivalence.symm (itsEquiv_relabel r (hl r hr) f hf)⟩
+
+/-- **`GlueEquivariant` holds of the concrete reactor.** -/
+theorem C05.glueEquivariant_concrete (maxGroup : Nat) (comp : LGraph → LGraph → List Mapping) :
+    GlueEquivariant (concrete maxGroup comp) := by
+  intro dir host T f π m hf hπ
+  rw [concrete_glue_relabel maxGroup comp hf hπ]
+  exact setEqMod_map_relabel _ (fun r hr => concrete_glue_wf maxGroup comp dir host T m r hr) f hf
+
+/-- **C05 clause 1, concrete, exhaustive strategy, no pruning — list form.** The ITS graphs glued
+along all matches for the renumbered substrate and template are the renumbered ITS graphs, in the
+same order (no well-formedness hypothesis). -/
+theorem C05.results_list_invariant_concrete {f π : Nat → Nat} (hf : Function.Injective f) (hπ : Function.Injective π)
+    (dir : Bool) (host T : LGraph) :
+    implicitResults (host.relabel f) (orient dir (T.relabel π))
+        (allMonos monoSel (host.relabel f) (left (orient dir (T.relabel π)))) =
+      (implicitResults host (orient dir T) (allMonos monoSel host (left (orient dir T)))).map (·.relabel f) := by
+  unfold implicitResults
+  rw [allMonos_left_orient_relabel hf hπ monoSel monoSel_no_atom_map, List.map_map, List.map_map]
+  apply List.map_congr_left
+  intro m _
+  exact glue_orient_relabel hf hπ dir host T m
+
+theorem concrete_searchEquivariant (maxGroup : Nat) (comp : LGraph → LGraph → List Mapping)
+    (hc : SearchEquivariant comp) (s : Strategy) : SearchEquivariant ((concrete maxGroup comp).search s) := by
+  cases s
+  · exact allMonos_searchEquivariant monoSel
+  · exact hc
+  · exact searchBt_equivariant hc (allMonos_searchEquivariant monoSel)
+
+/-- **C05 clause 1, concrete, no pruning.** Un-pruned results of the concrete implicit-path reactor
+are invariant under renumbering substrate and template, for the exhaustive strategy and for any
+equivariant component-aware search (and the fallback built from it). -/
+theorem C05.results_invariant_concrete (maxGroup : Nat) (comp : LGraph → LGraph → List Mapping)
+    (hc : SearchEquivariant comp) (s : Strategy) (dir : Bool) (host T : LGraph) (f π : Nat → Nat)
+    (hf : Function.Injective f) (hπ : Function.Injective π) :
+    SetEqMod ItsEquiv ((concrete maxGroup comp).resultsUnpruned s dir (host.relabel f) (T.relabel π))
+      ((concrete maxGroup comp).resultsUnpruned s dir host T) :=
+  results_invariant_unpruned (concrete maxGroup comp) (C05.patternEquivariant_concrete maxGroup comp)
+    (C05.glueEquivariant_concrete maxGroup comp) s (concrete_searchEquivariant maxGroup comp hc s) dir host T f π hf hπ
+
+/-- … in particular for the exhaustive strategy, unconditionally. -/
+theorem C05.results_invariant_concrete_all (maxGroup : Nat) (comp : LGraph → LGraph → List Mapping)
+    (dir : Bool) (host T : LGraph) (f π : Nat → Nat) (hf : Function.Injective f) (hπ : Function.Injective π) :
+    SetEqMod ItsEquiv ((concrete maxGroup comp).resultsUnpruned .all dir (host.relabel f) (T.relabel π))
+      ((concrete maxGroup comp).resultsUnpruned .all dir host T) :=
+  results_invariant_unpruned (concrete maxGroup comp) (C05.patternEquivariant_concrete maxGroup comp)
+    (C05.glueEquivariant_concrete maxGroup comp) .all (allMonos_searchEquivariant monoSel) dir host T f π hf hπ
+
+/-! ### Pruning, concrete -/
+
+/-- `prune_preserves_results` with the invariance of the glue step demanded of the raw matches only. -/
+theorem prune_preserves_results_on {E : R → R → Prop} (hE : Equivalence E) (glue : Mapping → List R)
+    (maxGroup : Nat) (keep : List Nat) (group : List Mapping) (ms : List Mapping)
+    (hinv : ∀ σ ∈ group, ∀ m ∈ ms, ∀ k, composeOn keep m σ = some k → SetEqMod E (glue k) (glue m)) :
+    SetEqMod E (resultsOf glue (pruneByAut maxGroup keep group ms)) (resultsOf glue ms) := by
+  constructor
+  · apply SubsetMod.of_subset hE
+    intro r hr
+    obtain ⟨m, hm, hrm⟩ := List.mem_flatMap.1 hr
+    exact List.mem_flatMap.2 ⟨m, (pruneByAut_sublist maxGroup keep group ms).subset hm, hrm⟩
+  · apply SubsetMod.flatMap
+    intro m hm
+    rcases pruneByAut_covers maxGroup keep group ms m hm with h | ⟨k, m', hm', hk, hk'⟩
+    · exact ⟨m, h, SubsetMod.refl hE _⟩
+    · obtain ⟨σ₁, hσ₁, e₁⟩ := pruneKey_mem_orbit keep group m k hk
+      obtain ⟨σ₂, hσ₂, e₂⟩ := pruneKey_mem_orbit keep group m' k hk'
+      have hm'' : m' ∈ ms := (pruneByAut_sublist maxGroup keep group ms).subset hm'
+      exact ⟨m', hm', (SetEqMod.trans hE (SetEqMod.symm (hinv σ₁ hσ₁ m hm k e₁)) (hinv σ₂ hσ₂ m' hm'' k e₂)).1⟩
+
+/-- **`GlueAutInvariant`, concrete (b).** Composing a match of the prepared pattern with an
+automorphism of the rule (the oriented template with its before/after labels, compared on `itsSel`)
+does not change the reaction it glues to: the two ITS graphs are isomorphic (`IsIso itsSel`, inside
+`ItsEquiv`; the isomorphism is the identity on the substrate's atoms, `ReactorLink.glue_aut_iso`).
+Restricted to matches of the prepared pattern. -/
+theorem C05.glueAutInvariant_concrete (maxGroup : Nat) (comp : LGraph → LGraph → List Mapping)
+    (dir : Bool) (host T : LGraph) (m σ k : Mapping)
+    (hm : WFHost host → WFTemplate (orient dir T) → IsMono monoSel host (left (orient dir T)) m)
+    (hσ : σ ∈ auts itsSel (orient dir T))
+    (hk : composeOn (left (orient dir T)).ids m σ = some k) :
+    SetEqMod ItsEquiv ((concrete maxGroup comp).glue dir host T k) ((concrete maxGroup comp).glue dir host T m) :=
+  concrete_glue_aut maxGroup comp dir host T m σ k hm hσ hk
+
+/-- **C05/C11 pruning clause, concrete.** For the modelled reactor with the repaired pruning, pruning a
+list of matches never changes the set of reactions obtained (up to isomorphism of ITS graphs). -/
+theorem C05.prune_preserves_results_concrete (maxGroup : Nat) (comp : LGraph → LGraph → List Mapping)
+    (dir : Bool) (host T : LGraph) (ms : List Mapping)
+    (hms : ∀ m ∈ ms, WFHost host → WFTemplate (orient dir T) → IsMono monoSel host (left (orient dir T)) m) :
+    SetEqMod ItsEquiv
+      (resultsOf ((concrete maxGroup comp).glue dir host T) ((concrete maxGroup comp).prune dir T ms))
+      (resultsOf ((concrete maxGroup comp).glue dir host T) ms) :=
+  prune_preserves_results_on itsEquiv_equivalence _ maxGroup _ _ ms
+    (fun σ hσ m hm k hk => concrete_glue_aut maxGroup comp dir host T m σ k (hms m hm) hσ hk)
+
+/-- The same in the vocabulary of C03: on the property's domain, the ITS graphs glued along the
+pruned matches and along all given matches are the same up to isomorphism. -/
+theorem C05.prune_preserves_implicitResults (maxGroup : Nat) (host T : LGraph) (ms : List Mapping)
+    (hH : WFHost host) (hT : WFTemplate T) (hms : ∀ m ∈ ms, IsMono monoSel host (left T) m) :
+    SetEqMod ItsEquiv (implicitResults host T (pruneByAut maxGroup (left T).ids (auts itsSel T) ms))
+      (implicitResults host T ms) := by
+  have key := C05.prune_preserves_results_concrete maxGroup (fun _ _ => []) false host T ms
+    (fun m hm _ _ => hms m hm)
+  have hr : ∀ l : List Mapping, (∀ m ∈ l, IsMono monoSel host (left T) m) →
+      resultsOf ((concrete maxGroup (fun _ _ => [])).glue false host T) l = implicitResults host T l := by
+    intro l hl
+    unfold resultsOf implicitResults
+    induction l with
+    | nil => rfl
+    | cons a rest ih =>
+      rw [List.flatMap_cons, List.map_cons, ih (fun m hm => hl m (List.mem_cons_of_mem _ hm)),
+        concrete_glue_of_mono maxGroup _ false host T a hH hT (hl a (List.mem_cons_self ..))]
+      rfl
+  rw [hr ms hms] at key
+  have hsub : ∀ m ∈ pruneByAut maxGroup (left T).ids (auts itsSel T) ms, IsMono monoSel host (left T) m :=
+    fun m hm => hms m ((pruneByAut_sublist _ _ _ ms).subset hm)
+  have := hr _ hsub
+  exact this ▸ key
+
+/-- `C05.statement_partial` with the soundness of pruning demanded only of the match lists the
+searches return (what the full statement uses). -/
+theorem C05.statement_of_searchPrune_partial (X : Reactor R) (hE : Equivalence X.equiv)
+    (hall : ∀ H P, X.search .all H P = allMonos X.sel H P)
+    (hbt : ∀ H P, X.search .bt H P = searchBt (X.search .comp H P) (X.search .all H P))
+    (hcompSub : ∀ H P m, m ∈ X.search .comp H P → m ∈ X.search .all H P)
+    (hcompEq : SearchEquivariant (X.search .comp))
+    (hpat : PatternEquivariant X) (hglue : GlueEquivariant X)
+    (hres : ∀ s dir host T, SetEqMod X.equiv (X.results s dir host T) (X.resultsUnpruned s dir host T)) :
+    C05.FullStatement X := by
+  have hallEq : SearchEquivariant (X.search .all) := by
+    have : X.search .all = allMonos X.sel := by funext H P; exact hall H P
+    rw [this]; exact allMonos_searchEquivariant X.sel
+  have hbtEq : SearchEquivariant (X.search .bt) := by
+    have : X.search .bt = fun H P => searchBt (X.search .comp H P) (X.search .all H P) := by
+      funext H P; exact hbt H P
+    rw [this]; exact searchBt_equivariant hcompEq hallEq
+  intro dir host T
+  refine ⟨?_, ?_, ?_, ?_⟩
+  · intro s f π hf hπ
+    have hs : SearchEquivariant (X.search s) := by cases s <;> assumption
+    exact SetEqMod.trans hE (hres s dir _ _)
+      (SetEqMod.trans hE (results_invariant_unpruned X hpat hglue s hs dir host T f π hf hπ)
+        (SetEqMod.symm (hres s dir host T)))
+  · refine SubsetMod.trans hE (hres .comp dir host T).1 (SubsetMod.trans hE ?_ (hres .all dir host T).2)
+    apply SubsetMod.of_subset hE
+    exact comp_subset_all _ _ _ (hcompSub host (X.pattern dir T))
+  · intro hne
+    have hc : X.search .comp host (X.pattern dir T) ≠ [] := by
+      intro e
+      apply hne
+      have := (hres .comp dir host T).1
+      unfold Reactor.resultsUnpruned at this
+      rw [e] at this
+      exact SubsetMod.nil_right (E := X.equiv) (by simpa [resultsOf] using this)
+    unfold Reactor.results Reactor.kept
+    rw [hbt]
+    unfold searchBt
+    cases h : X.search .comp host (X.pattern dir T) with
+    | nil => exact absurd h hc
+    | cons a rest => simp
+  · intro he
+    unfold Reactor.results Reactor.kept
+    rw [hbt, he]
+    simp [searchBt]
+
+/-- Every match the concrete reactor's searches return is a match of the prepared pattern. -/
+theorem concrete_search_mono (maxGroup : Nat) (comp : LGraph → LGraph → List Mapping)
+    (hcompSub : ∀ H P m, m ∈ comp H P → m ∈ allMonos monoSel H P)
+    (s : Strategy) (dir : Bool) (host T : LGraph) (m : Mapping)
+    (hm : m ∈ (concrete maxGroup comp).search s host ((concrete maxGroup comp).pattern dir T))
+    (_hH : WFHost host) (hT : WFTemplate (orient dir T)) : IsMono monoSel host (left (orient dir T)) m := by
+  have hall : m ∈ allMonos monoSel host (noMap (left (orient dir T))) := by
+    cases s
+    · exact hm
+    · exact hcompSub _ _ m hm
+    · have hm' : m ∈ searchBt (comp host (noMap (left (orient dir T)))) (allMonos monoSel host (noMap (left (orient dir T)))) := hm
+      unfold searchBt at hm'
+      split at hm'
+      · exact hm'
+      · exact hcompSub _ _ m hm'
+  rw [allMonos_noMap monoSel monoSel_no_atom_map] at hall
+  exact (mem_allMonos monoSel host _ (left_wf _ hT) m).1 hall
+
+/-- **C05 for the concrete reactor (`_partial`)**: `C05.FullStatement` holds of the modelled
+implicit path with the repaired pruning — invariance of the result set under renumbering substrate
+and template for all three strategies, component-aware ⊆ exhaustive, the fallback rule — for every
+component-aware search `comp` that returns exhaustive matches and is equivariant.  All hypotheses
+about glue, pattern preparation, exhaustive search and pruning are discharged; the two on `comp` are
+discharged for the C06 model in `C05.statement_concrete` below. -/
+theorem C05.statement_concrete_partial (maxGroup : Nat) (comp : LGraph → LGraph → List Mapping)
+    (hcompSub : ∀ H P m, m ∈ comp H P → m ∈ allMonos monoSel H P)
+    (hcompEq : SearchEquivariant comp) :
+    C05.FullStatement (concrete maxGroup comp) := by
+  apply C05.statement_of_searchPrune_partial (concrete maxGroup comp) itsEquiv_equivalence
+  · intro H P; rfl
+  · intro H P; rfl
+  · exact hcompSub
+  · exact hcompEq
+  · exact C05.patternEquivariant_concrete maxGroup comp
+  · exact C05.glueEquivariant_concrete maxGroup comp
+  · intro s dir host T
+    exact C05.prune_preserves_results_concrete maxGroup comp dir host T _
+      (fun m hm hH hT => concrete_search_mono maxGroup comp hcompSub s dir host T m hm hH hT)
+
+/-- Non-vacuity of the hypotheses on `comp`: the exhaustive enumerator itself is an admissible
+component search (every strategy then coincides with the exhaustive one), so the concrete full
+statement has at least this unconditional instance. -/
+theorem C05.statement_concrete_exhaustive (maxGroup : Nat) :
+    C05.FullStatement (concrete maxGroup (allMonos monoSel)) :=
+  C05.statement_concrete_partial maxGroup (allMonos monoSel) (fun _ _ _ h => h) (allMonos_searchEquivariant monoSel)
+
+/-! ### The component-aware and fallback strategies of the C06 model -/
+
+/-- The component-aware strategy as the reactor calls it: `findComp` of the C06 model on `monoSel`,
+no `max_results`, any `strict_cc_count` / `threshold`; nothing on ill-formed graphs. -/
+def compSearch (strict : Bool) (thr : Nat) (H P : LGraph) : List Mapping :=
+  if H.WF ∧ P.WF then SynKit.SubgraphSearch.findComp monoSel H P 0 strict thr else []
+
+/-- C06 soundness: component-aware matches are exhaustive matches. -/
+theorem compSearch_sub (strict : Bool) (thr : Nat) (H P : LGraph) (m : Mapping)
+    (hm : m ∈ compSearch strict thr H P) : m ∈ allMonos monoSel H P := by
+  unfold compSearch at hm
+  split at hm
+  · rename_i hw
+    exact SynKit.SubgraphSearch.comp_subset_all monoSel H P hw.1 hw.2 0 strict thr m hm
+  · cases hm
+
+/-- **`SearchEquivariant` for the component-aware strategy (c)**, from the list-level equivariance
+`SubgraphSearch.findComp_relabel` of the C06 model. -/
+theorem compSearch_equivariant (strict : Bool) (thr : Nat) : SearchEquivariant (compSearch strict thr) := by
+  intro H P f π hf hπ m
+  unfold compSearch
+  by_cases hw : H.WF ∧ P.WF
+  · rw [if_pos hw, if_pos ⟨(relabel_WF_iff H f hf).2 hw.1, (relabel_WF_iff P π hπ).2 hw.2⟩]
+    exact SynKit.SubgraphSearch.findComp_searchEquivariant monoSel 0 strict thr H P f π hf hπ m
+  · rw [if_neg hw, if_neg (fun h => hw ⟨(relabel_WF_iff H f hf).1 h.1, (relabel_WF_iff P π hπ).1 h.2⟩)]
+    constructor
+    · intro h; cases h
+    · rintro ⟨m₀, h, _⟩; cases h
+
+/-- The component-aware search of the concrete reactor sees the pattern exactly as `its_decompose`
+builds it (the erased `atom_map` is not read). -/
+theorem concrete_search_comp (maxGroup : Nat) (strict : Bool) (thr : Nat) (dir : Bool) (host T : LGraph) :
+    (concrete maxGroup (compSearch strict thr)).search .comp host ((concrete maxGroup (compSearch strict thr)).pattern dir T) =
+      compSearch strict thr host (left (orient dir T)) := by
+  show compSearch strict thr host (noMap (left (orient dir T))) = _
+  unfold compSearch
+  rw [SynKit.SubgraphSearch.findComp_noMap monoSel monoSel_no_atom_map]
+  by_cases hw : host.WF ∧ (left (orient dir T)).WF
+  · rw [if_pos hw, if_pos ⟨hw.1, (noMap_WF_iff _).2 hw.2⟩]
+  · rw [if_neg hw, if_neg (fun h => hw ⟨h.1, (noMap_WF_iff _).1 h.2⟩)]
+
+/-- **C05 for the concrete reactor**: `C05.FullStatement` holds, without any hypothesis, of the
+modelled implicit path of `SynReactor` — pattern preparation and glue step of the C03 model,
+exhaustive search = the proven enumerator, component-aware search = `findComp` of the C06 model
+(any `strict_cc_count`, any `threshold`), fallback = component-aware if non-empty else exhaustive,
+pruning = the repaired `pruneByAut` over the automorphisms of the rule (any group-size bound), results
+compared up to isomorphism of ITS graphs: the result set is invariant under renumbering substrate
+and template for all three strategies, component-aware ⊆ exhaustive, and the fallback rule holds.
+(Outside the model: the explicit-hydrogen re-matching path, `_explicit_h`, SMILES rendering; the
+exhaustive strategy is taken without its threshold.) -/
+theorem C05.statement_concrete (maxGroup : Nat) (strict : Bool) (thr : Nat) :
+    C05.FullStatement (concrete maxGroup (compSearch strict thr)) :=
+  C05.statement_concrete_partial maxGroup (compSearch strict thr) (compSearch_sub strict thr)
+    (compSearch_equivariant strict thr)
+
+/-! ### Non-vacuity of the concrete instance -/
+
+private def cHost : LGraph :=
+  { nodes := [(1, [("element", .str "C"), ("hcount", .num 6), ("charge", .num 0)]),
+              (2, [("element", .str "Br"), ("hcount", .num 0), ("charge", .num 0)]),
+              (3, [("element", .str "N"), ("hcount", .num 4), ("charge", .num 0)])]
+    edges := [(1, 2, [("order", .num 2)])] }
+
+/-- N(10) loses a hydrogen and bonds to C(11); C(11)–Br(12) breaks; Br gains the hydrogen. -/
+private def cT : LGraph :=
+  { nodes := [(10, [("typesGH", .tup [.tup [.str "N", .bool false, .num 2, .num 0, .tup []],
+                                       .tup [.str "N", .bool false, .num 0, .num 0, .tup []]])]),
+              (11, [("typesGH", .tup [.tup [.str "C", .bool false, .num 0, .num 0, .tup []],
+                                       .tup [.str "C", .bool false, .num 0, .num 0, .tup []]])]),
+              (12, [("typesGH", .tup [.tup [.str "Br", .bool false, .num 0, .num 0, .tup []],
+                                       .tup [.str "Br", .bool false, .num 2, .num 0, .tup []]])])]
+    edges := [(10, 11, [("order", .tup [.num 0, .num 2]), ("standard_order", .num (-2))]),
+              (11, 12, [("order", .tup [.num 2, .num 0]), ("standard_order", .num 2)])] }
+
+/-- The concrete reactor really produces something on the property's domain (guards pass, one
+match, one ITS) … -/
+example : WFHost cHost ∧ WFTemplate cT ∧
+    (concrete 5040 (allMonos monoSel)).results .all false cHost cT = [glue cHost cT [(10, 3), (11, 1), (12, 2)]] := by
+  decide
+
+/-- … and after renumbering substrate (+7) and template (+100) it produces the renumbered ITS: the
+conclusion of `C05.results_list_invariant_concrete` / `C05.statement_concrete_partial` on a concrete
+non-trivial input. -/
+example : (concrete 5040 (allMonos monoSel)).results .all false (cHost.relabel (· + 7)) (cT.relabel (· + 100)) =
+    [(glue cHost cT [(10, 3), (11, 1), (12, 2)]).relabel (· + 7)] := by decide
+
+/-- The component-aware and the fallback strategy of the C06 model on the same input (two host
+components, two pattern components): `C05.statement_concrete` is about a reactor that really
+produces results under every strategy. -/
+example : (concrete 5040 (compSearch false 5000)).results .comp false cHost cT = [glue cHost cT [(10, 3), (11, 1), (12, 2)]] ∧
+    (concrete 5040 (compSearch false 5000)).results .bt false cHost cT = [glue cHost cT [(10, 3), (11, 1), (12, 2)]] := by
+  decide
+
+/-- The `atom_map` obstacle is real: pattern preparation does NOT commute with renumbering literally
+(so `PatternEquivariant` fails for `pattern = left`), only up to `noMap`. -/
+example : left (cT.relabel (· + 100)) ≠ (left cT).relabel (· + 100) ∧
+    noMap (left (cT.relabel (· + 100))) = (noMap (left cT)).relabel (· + 100) := by decide
+
+/-- A rule with a symmetry (Br–Br homolysis, the two atoms exchangeable): two matches, two rule
+automorphisms, pruning keeps one match — `C05.prune_preserves_results_concrete` applies to a list
+that really shrinks. -/
+private def sHost : LGraph :=
+  { nodes := [(1, [("element", .str "Br"), ("hcount", .num 0), ("charge", .num 0)]),
+              (2, [("element", .str "Br"), ("hcount", .num 0), ("charge", .num 0)])]
+    edges := [(1, 2, [("order", .num 2)])] }
+
+private def sT : LGraph :=
+  { nodes := [(10, [("typesGH", .tup [.tup [.str "Br", .bool false, .num 0, .num 0, .tup []],
+                                       .tup [.str "Br", .bool false, .num 0, .num 0, .tup []]])]),
+              (11, [("typesGH", .tup [.tup [.str "Br", .bool false, .num 0, .num 0, .tup []],
+                                       .tup [.str "Br", .bool false, .num 0, .num 0, .tup []]])])]
+    edges := [(10, 11, [("order", .tup [.num 2, .num 0]), ("standard_order", .num 2)])] }
+
+example : WFHost sHost ∧ WFTemplate sT ∧ (auts itsSel sT).length = 2 ∧
+    ((concrete 5040 (allMonos monoSel)).resultsUnpruned .all false sHost sT).length = 2 ∧
+    ((concrete 5040 (allMonos monoSel)).results .all false sHost sT).length = 1 := by decide
+
+end Concrete
 
 end SynKit.ReactorInv
